@@ -5,6 +5,7 @@ package main
 // applies the known-findings file, writes evidence, sets the exit code.
 
 import (
+	"encoding/base64"
 	"encoding/json"
 	"flag"
 	"fmt"
@@ -114,6 +115,13 @@ func runNative(bin string, jobs []nativeJob) ([]nativeResult, error) {
 	var res []nativeResult
 	if err := json.Unmarshal(rb, &res); err != nil {
 		return nil, err
+	}
+	for i := range res {
+		for j, o := range res[i].Obs {
+			if d, err := base64.StdEncoding.DecodeString(o); err == nil {
+				res[i].Obs[j] = string(d)
+			}
+		}
 	}
 	return res, nil
 }
